@@ -12176,7 +12176,7 @@ void
 C_<TN_, TA_, SG_, TH_, TS_...>::deepForwardActive(Control& control,
 												  const Request request) noexcept
 {
-	HFSM2_ASSERT(HEAD_ID == ROOT_ID || control._core.registry.isActive(HEAD_ID));
+	HFSM2_ASSERT(HEAD_ID == ROOT_ID || control._core.registry.isActive(HEAD_ID) || !control._core.registry.isActive());
 
 	const Prong requested = compoRequested(control);
 
@@ -14237,7 +14237,7 @@ void
 O_<TN_, TA_, TH_, TS_...>::deepForwardActive(Control& control,
 											 const Request request) noexcept
 {
-	HFSM2_ASSERT(control._core.registry.isActive(HEAD_ID));
+	HFSM2_ASSERT(control._core.registry.isActive(HEAD_ID) || !control._core.registry.isActive());
 
 	const ProngCBits requested = orthoRequested(static_cast<const Control&>(control));
 
